@@ -47,6 +47,10 @@ def obligations(tier, ctx):
         for what in (0, 1, 2, 3):
             obs.append(Ob(name=f"ctorjsonval{which}_{what}", params=[("i", "int"), ("v", "int")], pre=["0 <= i <= 8", "0 <= v <= 7"],
                           call=f"H.ctor_json_val({which}, {what}, i, v)", backend="P", timeout=300, family="constructors, numeric/nested corpus through the real encoder (Pydantic)"))
+    for what in (4, 5, 6, 7, 8):
+        obs.append(Ob(name=f"wire_direct_{what}", params=[("i", "int"), ("p", "int"), ("s", "int")], pre=["0 <= i <= 8", "p in (0, 2, 4)", "s in (0, 1, 6)"],
+                      call=f"H.wire_transports(0, {what}, i, p, s)", backend="P", timeout=400,
+                      family="transports' serialisers for typed objects built directly (members left to their defaults)"))
     for which in (0, 1):
         for what in (0, 1, 2, 3):
             obs.append(Ob(name=f"wire{which}_{what}", params=[("i", "int"), ("p", "int"), ("s", "int")], pre=["0 <= i <= 8", "p in (0, 2, 4)", "s in (0, 1, 2, 6)"],
@@ -67,4 +71,9 @@ def obligations(tier, ctx):
     obs.append(Ob(name="batch_rejection", params=[("v", "int"), ("k", "int"), ("ri", "int"), ("rs", "str")], pre=["0 <= v <= 8", "0 <= k <= 2", "len(rs) <= 2"],
                   call="H.batch_rejection(v, k, ri, rs)", backend="F", timeout=240, family="batching error objects"))
     obs.append(Ob(name="batch_item_error", params=[("rid", "int")], pre=[], call="H.batch_item_error(rid)", backend="F", timeout=120, family="batching error objects"))
+    from symcheck.runner import mirror
+    if tier != "quick":
+        import dataclasses
+        # under the pure-Python backend a path through three transports costs seconds: two obligations, long timeout
+        obs += [dataclasses.replace(o, timeout=1500) for o in mirror(obs, r"^(wire0_0|wire_direct_7)$", "F")]
     return obs
